@@ -129,8 +129,9 @@ pub fn run(ctx: &Ctx) {
         |i, l| {
             let (name, hex) = NAMED[i as usize];
             let (r, g, b) = ((hex >> 16) & 255, (hex >> 8) & 255, hex & 255);
+            // (f*: the name must behave like its hex spelling under the opacity functions too)
             let src = format!(
-                "a{{r: red({n}); g: green({n}); b: blue({n}); e1: ({n} == #{h:06x}); e2: ({n} == rgb({r},{g},{b})); e3: ({N} == {n}); t: type-of({n})}}",
+                "a{{r: red({n}); g: green({n}); b: blue({n}); e1: ({n} == #{h:06x}); e2: ({n} == rgb({r},{g},{b})); e3: ({N} == {n}); t: type-of({n}); f1: alpha(fade-out({n}, 0.25)); f2: (transparentize({n}, 0.3) == transparentize(#{h:06x}, 0.3)); f3: alpha(fade-out({n}, 1)); f4: alpha(opacify(fade-out({n}, 0.5), 0.25)); f5: (fade-in(rgba({n}, 0.5), 0.5) == {n}); f6: alpha({n})}}",
                 n = name, N = name.to_uppercase(), h = hex, r = r, g = g, b = b
             );
             l.evals += 1;
@@ -138,7 +139,10 @@ pub fn run(ctx: &Ctx) {
             l.outcome(o.digest());
             l.validated += 1;
             l.nontrivial += 1;
-            let want = vec![("r", r.to_string()), ("g", g.to_string()), ("b", b.to_string()), ("e1", "true".into()), ("e2", "true".into()), ("e3", "true".into()), ("t", "color".into())];
+            let mut want = vec![("r", r.to_string()), ("g", g.to_string()), ("b", b.to_string()), ("e1", "true".into()), ("e2", "true".into()), ("e3", "true".into()), ("t", "color".into())];
+            if name != "transparent" {
+                want.extend(vec![("f1", "0.75".to_string()), ("f2", "true".into()), ("f3", "0".into()), ("f4", "0.75".into()), ("f5", "true".into()), ("f6", "1".into())]);
+            }
             match &o {
                 Outcome::Ok(c) => {
                     let d = decls(c);
@@ -167,7 +171,7 @@ pub fn run(ctx: &Ctx) {
             }
         },
     );
-    ctx.bound(sub, "all 148 CSS named colours (independent table)", true);
+    ctx.bound(sub, "all 148 CSS named colours (independent table): channels, equality with the hex and rgb() spellings, case, compressed spellings, and the opacity functions (fade-out / transparentize / opacify / fade-in) applied to the bare name", true);
     ctx.sample(sub, json!({"input": "a{r: red(rebeccapurple); e1: (rebeccapurple == #663399)}"}));
 
     // ---- short hex -----------------------------------------------------------------
@@ -345,6 +349,75 @@ pub fn run(ctx: &Ctx) {
     );
     ctx.bound(sub, "hsl()/hwb() over a hue x percentage grid incl. out-of-range values, against the CSS formulas; channel range invariant", true);
     ctx.sample(sub, json!({"input": "hsl(420, 110%, -10%)"}));
+
+    // ---- alpha arguments of the constructors: percentages and numbers, in and out of range ----------
+    {
+        let sub = "alpha-arguments";
+        let shapes: &[&str] = &[
+            "rgb(10, 20, 30, \u{1})", "rgba(10, 20, 30, \u{1})", "rgb(10 20 30 / \u{1})", "rgba(#0a141e, \u{1})", "hsl(120, 50%, 40%, \u{1})", "hsla(120, 50%, 40%, \u{1})", "hsl(120 50% 40% / \u{1})",
+            "hsla(120deg 50% 40% / \u{1})", "color.hwb(120 10% 20% / \u{1})", "color.hwb(120, 10%, 20%, \u{1})", "change-color(#123456, $alpha: \u{1})",
+        ];
+        // (argument text, the alpha it stands for after clamping; None = not accepted by every shape)
+        let alphas: &[(&str, f64)] = &[
+            ("0", 0.0), ("0.25", 0.25), ("1", 1.0), ("1.5", 1.0), ("-0.5", 0.0), ("0%", 0.0), ("25%", 0.25), ("100%", 1.0), ("150%", 1.0), ("-20%", 0.0), ("0.999999999999", 1.0), ("100.0000000001%", 1.0),
+        ];
+        let n = (shapes.len() * alphas.len()) as u64;
+        par(
+            ctx,
+            sub,
+            n,
+            |i| json!({"call": shapes[i as usize % shapes.len()].replace('\u{1}', alphas[i as usize / shapes.len()].0)}),
+            |i, l| {
+                let shape = shapes[i as usize % shapes.len()];
+                let (arg, want) = alphas[i as usize / shapes.len()];
+                let call = shape.replace('\u{1}', arg);
+                // change-color takes numbers only and rejects what is out of range: judged by the range invariant alone
+                let strict = shape.starts_with("change-color");
+                let src = format!("@use \"sass:color\";\n$c: {};\na{{al: alpha($c); r: red($c); g: green($c); b: blue($c); op: opacity($c); same: ($c == rgba($c, alpha($c)))}}", call);
+                l.evals += 1;
+                let o = compile(&src, &Cfg::scss());
+                l.outcome(o.digest());
+                l.validated += 1;
+                match &o {
+                    Outcome::Ok(c) => {
+                        l.nontrivial += 1;
+                        let d = decls(c);
+                        let get = |p: &str| d.iter().find(|x| x.1 == p).map(|x| x.2.clone()).unwrap_or_default();
+                        let al: f64 = get("al").parse().unwrap_or(f64::NAN);
+                        let mut bad = Vec::new();
+                        if !(0.0..=1.0).contains(&al) {
+                            bad.push(format!("alpha() is {} (outside [0, 1])", get("al")));
+                        } else if !strict && (al - want).abs() > 1e-9 {
+                            bad.push(format!("alpha() is {}, the argument {} stands for {}", get("al"), arg, want));
+                        }
+                        if get("op") != get("al") || get("same") != "true" {
+                            bad.push(format!("opacity() = {}, alpha() = {}, round trip through rgba() equal: {}", get("op"), get("al"), get("same")));
+                        }
+                        for ch in ["r", "g", "b"] {
+                            let v: f64 = get(ch).parse().unwrap_or(f64::NAN);
+                            if !(0.0..=255.0).contains(&v) || v.fract() != 0.0 {
+                                bad.push(format!("{}() is {}", ch, get(ch)));
+                            }
+                        }
+                        if !bad.is_empty() {
+                            ctx.violation(sub, &format!("alpha-arg:{}", call), &bad.join("; "), json!({"input": src, "output": c}));
+                        }
+                    }
+                    Outcome::Err(_) => {
+                        // rejecting an out-of-range or wrongly typed alpha is within the range invariant
+                        if !strict && (0.0..=1.0).contains(&want) && !arg.starts_with('-') && !arg.starts_with("1.5") && !arg.starts_with("150") && !arg.starts_with("100.0") {
+                            ctx.violation(sub, &format!("alpha-arg:{}", call), &format!("a legal alpha is rejected: {}", o.brief()), json!({"input": src}));
+                        } else {
+                            l.count("rejected", 1);
+                        }
+                    }
+                    Outcome::Panic(p2) => ctx.violation(sub, &format!("alpha-arg:{}", call), &format!("panic: {}", p2), json!({"input": src})),
+                }
+            },
+        );
+        ctx.bound(sub, "11 constructor shapes taking an alpha (rgb/rgba legacy, slash and colour forms, hsl/hsla legacy and slash forms, hwb, change-color) x 12 alpha spellings (numbers and percentages at, inside, outside and within 1e-11 of [0, 1]): alpha in [0, 1] and equal to the clamped argument, opacity() agrees, channels are integers in range", true);
+        ctx.sample(sub, json!({"input": "alpha(hsla(120, 50%, 40%, 150%))", "expected": 1}));
+    }
 
     // ---- function arguments in and just outside their ranges --------------------------
     let sub = "arg-ranges";
